@@ -94,7 +94,7 @@ theorem sum_closed (x t0 : ℝ) (ts : List ℝ) (h : (t0 :: ts).Pairwise (· ≤
     have hr := (List.pairwise_cons.mp h).2
     have hl := le_getLastD t1 r hr
     have ih' := ih t1 hr
-    simp only [tailR, List.map_cons, List.cons_append, Bool.false_eq_true, if_false,
+    simp only [tailR, List.map_cons, Bool.false_eq_true, if_false,
       List.append_nil] at ih' ⊢
     rw [pwVars_cons2, List.sum_cons, ih', pwVar_cc, List.getLastD_cons]
     generalize r.getLastD t1 = L at hl ⊢
@@ -247,11 +247,8 @@ theorem segTerm_real (param row : String → ℝ) (beta v : String) (kc : Int ×
   rw [emul_real, ofBool_real]
   congr 1
   by_cases h : row v = (kc.1 : ℝ)
-  · have : Num.eq (row v) (Num.int kc.1) = true := by simp [h]
-    simp [this, h]
-  · have : Num.eq (row v) (Num.int kc.1) = false := by
-      rw [Bool.eq_false_iff]; intro hh; exact h (by simpa using hh)
-    simp [this, h]
+  · simp [h]
+  · simp [h]
 
 theorem sum_ind_not_mem (g : Int × String → ℝ) (k : Int) (l : List (Int × String))
     (hk : k ∉ l.map Prod.fst) :
